@@ -40,6 +40,13 @@ class Obligation:
     line: int = 0
 
 
+def ctx_of(w) -> str:
+    """label of the concrete class a walk / store record belongs to (the context in which shared base-class code is being judged)"""
+    st = getattr(w, 'store', w)
+    ci = getattr(st, 'ci', None)
+    return ci.label if ci is not None else ''
+
+
 class Result:
     def __init__(self, prop: str):
         self.prop = prop
@@ -57,6 +64,10 @@ class Result:
         self.advisories: List[str] = []
         self.selftest: Dict[str, object] = {}
         self._index: Dict[tuple, int] = {}
+        # Code shared through a base class is judged once per concrete class (with that class's overrides in place): the obligation is the same
+        # construct in a different context.  Findings are keyed by construct; instance counts (floors) by (construct, context).
+        self.ctx = ''
+        self._instances = set()
 
     # -- recording -----------------------------------------------------------------------
     def rule(self, rid: str, text: str, floor: int = 1):
@@ -67,6 +78,7 @@ class Result:
         """Record a discharged obligation; one obligation per (rule, construct) - a failure recorded for the
         same instance (on another path) wins."""
         k = (rule, construct)
+        self._instances.add((rule, construct, self.ctx))
         if k in self._index:
             return
         self._index[k] = len(self.obligations)
@@ -75,6 +87,7 @@ class Result:
     def fail(self, rule, construct, message, file='', line=0, path=None, advisory=False):
         """Record a violated obligation (one finding per (rule, construct))."""
         k = (rule, construct)
+        self._instances.add((rule, construct, self.ctx))
         ob = Obligation(rule, construct, False, message, file, line)
         if k in self._index:
             if not self.obligations[self._index[k]].ok:
@@ -90,7 +103,7 @@ class Result:
             self.findings.append(f)
 
     def count(self, rule):
-        return sum(1 for o in self.obligations if o.rule == rule)
+        return sum(1 for k in self._instances if k[0] == rule)
 
 
 def load_known():
